@@ -452,3 +452,73 @@ def race_harness(prop, tier, seed, cov, log):
     cov['race_runs_ok'] = ok
     cov['race_reports_in_hagall'] = races
     return viol
+
+
+# ------------------------------------------------------------------ concurrent blocks at lock granularity
+
+def conc_explore(prop, tier, seed, cov, log):
+    """Histories that end in a block of 2-3 requests handled concurrently by the real handlers, with every Lock / RLock of
+    the shared structures a scheduling point (go/vsync, go/cmd/drive conc): every interleaving with at most two
+    preemptions is executed.  An outcome that some serial order of the requests on the Lean model explains is judged
+    like a sequential history (all monitors); one that none explains is judged on what the properties ask under
+    concurrency: no deadlock, no panic, unique ids, every member's view equal to what later newcomers are handed."""
+    import concurrent.futures as cf
+    blocks = 24 if tier == 'quick' else 480
+    chunks = 8 if tier == 'quick' else 16
+    per = max(1, blocks // chunks)
+    def run(i):
+        r = subprocess.run([f'{L.BIN}/drive', 'conc', '-seed', str(seed * 1000 + i), '-n', str(per), '-steps', '30'],
+                           capture_output=True, text=True, env=L.GOENV, timeout=3000)
+        if r.returncode != 0:
+            return i, None, None, r.stderr[-2000:]
+        d = subprocess.run([L.DRIVER], input=r.stdout, capture_output=True, text=True)
+        return i, r.stdout, d.stdout, None
+    viol = []; seen = set(); known = L.load_known(prop)
+    tot = {'explored': 0, 'distinct': 0, 'deadlocks': 0}; hist = 0; unser = 0; agree = 0
+    def report(cause, i, detail, trace, idx, nfi=False):
+        if cause in seen: return
+        seen.add(cause)
+        k = [e for e in known if e['cause'] == cause]
+        if k:
+            print(f'KNOWN-FINDING: property={prop} {k[0]["what"]} [{cause}]'); return
+        body = []
+        if trace is not None:
+            # the history (replayable E lines) of the offending outcome
+            on = False; n = -1
+            for l in trace.split('\n'):
+                if l.startswith('HIST '):
+                    n += 1; on = (n == idx)
+                    if on: body.append(l)
+                elif on and l.startswith('E '): body.append(l)
+                elif on and l.startswith('END'): break
+        path = L.write_replay(prop, cause, {'property': prop, 'cause': cause, 'seed': seed, 'tier': tier, 'detail': detail[:1500],
+                              'replay': f'.cache/bin/drive replay -in replays/{prop}-{cause}.trace | lean/.lake/build/bin/driver   (the E conc line carries the schedule)'}, body)
+        viol.append((path, ' no-failing-input-found' if nfi else ''))
+    with cf.ThreadPoolExecutor(max_workers=L.NCPU) as ex:
+        for i, trace, out, err in ex.map(run, range(chunks)):
+            if err:
+                report('conc-harness', i, err, None, 0, nfi=True); continue
+            m = re.search(r'CSTAT explored=(\d+) distinct=(\d+) deadlocks=(\d+)', trace)
+            if m:
+                for k, v in zip(('explored', 'distinct', 'deadlocks'), m.groups()): tot[k] += int(v)
+            pos = -1
+            for l in out.split('\n'):
+                if l.startswith('R '):
+                    pos += 1; hist += 1
+                    if ' ok ' in l: agree += 1
+                    elif 'kind=deadlock' in l and prop == 'C09':
+                        report('deadlock', i, l, trace, pos)
+                    elif prop == 'C09' and ' diff ' in l and 'kind=conc' not in l:
+                        pass
+                elif l.startswith('C ') and 'unserializable=1' in l:
+                    unser += 1
+                elif l.startswith('M '):
+                    t = l.split(' ', 5)
+                    if t[2] == prop:
+                        report(t[3], i, l, trace, pos)
+    cov['conc_interleavings_explored'] = tot['explored']
+    cov['conc_distinct_outcomes'] = tot['distinct']
+    cov['conc_outcomes_explained_by_a_serial_order_of_the_model'] = hist - unser
+    cov['conc_outcomes_no_serial_order_explains'] = unser
+    cov['conc_deadlocks'] = tot['deadlocks']
+    return viol
